@@ -28,9 +28,9 @@ CURATED = {
         MODULE_BODY: ("C02",),
         "Dispersion.__init__": ("C02",), "Dispersion.set_weights": ("C02",),
         "Dispersion.get_weights": ("C01", "C02", "C05", "C06", "C07", "C10", "C14",), "Dispersion._linspace": ("C01", "C02"),
-        "GaussianDispersion._weights": ("C02",), "UniformDispersion._weights": ("C02",), "RectangleDispersion._weights": ("C02",),
-        "LogNormalDispersion._weights": ("C02",), "SchulzDispersion._weights": ("C02",), "BoltzmannDispersion._weights": ("C02",),
-        "ArrayDispersion.__init__": ("C02",), "ArrayDispersion.set_weights": ("C02", "C10"), "ArrayDispersion._weights": ("C02", "C10"),
+        "GaussianDispersion._weights": ("C01", "C02",), "UniformDispersion._weights": ("C01", "C02",), "RectangleDispersion._weights": ("C01", "C02",),
+        "LogNormalDispersion._weights": ("C01", "C02",), "SchulzDispersion._weights": ("C01", "C02",), "BoltzmannDispersion._weights": ("C01", "C02",),
+        "ArrayDispersion.__init__": ("C02",), "ArrayDispersion.set_weights": ("C02", "C10"), "ArrayDispersion._weights": ("C01", "C02", "C10"),
         "get_weights": ("C01", "C02", "C05", "C07", "C10", "C14",),
     },
     "resolution": {
